@@ -149,3 +149,43 @@ type Doc struct {
 	// top-level number (a prefix of it can be a complete value).
 	OpenEnd []bool
 }
+
+// DupMember returns v with one member of one object (drawn) repeated at the end
+// of that object: the same key twice in one document is legal input in all
+// three formats.
+func DupMember(c interface{ N(int) int }, v Val) Val {
+	var objs []*Val
+	var walk func(x *Val)
+	out := cloneVal(v)
+	walk = func(x *Val) {
+		if x.K == VObj && len(x.A) > 0 {
+			objs = append(objs, x)
+		}
+		for i := range x.A {
+			walk(&x.A[i])
+		}
+	}
+	walk(&out)
+	if len(objs) == 0 {
+		return v
+	}
+	o := objs[c.N(len(objs))]
+	i := c.N(len(o.A))
+	o.A = append(o.A, cloneVal(o.A[i]))
+	o.Keys = append(o.Keys, o.Keys[i])
+	return out
+}
+
+func cloneVal(v Val) Val {
+	out := v
+	if v.A != nil {
+		out.A = make([]Val, len(v.A))
+		for i := range v.A {
+			out.A[i] = cloneVal(v.A[i])
+		}
+	}
+	if v.Keys != nil {
+		out.Keys = append([]string{}, v.Keys...)
+	}
+	return out
+}
